@@ -48,6 +48,12 @@ def build(spec):
     data = _arr(spec['data'])
     err = _arr(spec.get('err'))
     mask = None if spec.get('mask') is None else np.array(spec['mask'], dtype=bool)
+    dt = spec.get('dtype')
+    if dt:      # same numbers stored as integers / single precision
+        ddt, edt = {'int16': ('int16', 'int16'), 'uint8err': ('int16', 'uint8'), 'int32': ('int32', 'int32'),
+                    'float32': ('float32', 'float32')}[dt]
+        data = data.astype(ddt)
+        err = None if err is None else err.astype(edt)
     apers = []
     for a in spec['apers']:
         pos = a['positions'][0] if a.get('scalar') else a['positions']
@@ -199,7 +205,13 @@ def gen_spec(rng, lattice):
     if big:
         ny, nx = rng.randint(10, 30), rng.randint(10, 30)
     nonfinite = rng.random() < 0.3
+    dtype = rng.choice([None] * 6 + ['int16', 'uint8err', 'int32', 'float32']) if lattice else None
+    if dtype:
+        nonfinite = False
     d, e = gen_image(rng, ny, nx, lattice, nonfinite)
+    if dtype:     # integer-valued images whose squares overflow the narrow integer types
+        d = [[float(rng.randint(-300, 300)) for _ in range(nx)] for _ in range(ny)]
+        e = [[float(rng.randint(0, 250)) for _ in range(nx)] for _ in range(ny)]
     if lattice:
         method = rng.choice(['center', 'subpixel', 'subpixel', 'exactrect'])
         subpixels = rng.choice([1, 2, 4, 8, 16, 32]) if method == 'subpixel' else 5
@@ -233,6 +245,10 @@ def gen_spec(rng, lattice):
             'apers': apers, 'single': single, 'kinds': kinds,
             'form': rng.choice(['array', 'array', 'nddata', 'quantity']),
             'fill': rng.choice([0.0, 0.0, 2.5, -1.0, math.nan])}
+    if dtype:
+        spec['dtype'] = dtype
+        if dtype != 'float32' and spec['fill'] == 2.5:
+            spec['fill'] = -1.0          # an integer cutout cannot hold 2.5
     if spec['form'] == 'nddata':
         spec['nd_unc'] = rng.choice(['std', 'std', 'var', 'none'])
         spec['nd_kw'] = rng.random() < 0.3      # also pass (ignored / surviving) error & mask keywords
@@ -553,7 +569,7 @@ def oracles(spec, rng=None, extra=True):
         if rng is None:
             return viol, info
         # ---- blind to the values stored in masked / zero-weight / out-of-box pixels
-        d2, e2_ = data.copy(), (None if eff_err is None else eff_err.copy())
+        d2, e2_ = data.astype(float), (None if eff_err is None else eff_err.astype(float))
         inset = np.zeros((ny, nx), bool)
         for ai, ms in enumerate(masks_all):
             for m in ms:
@@ -831,16 +847,26 @@ def describe(spec):
     return spec
 
 
+def report(ctx, seen, sig, what, replay_obj, keep=3):
+    """at most `keep` replay files per signature (the first, i.e. earliest generated, inputs)"""
+    seen[sig] = seen.get(sig, 0) + 1
+    if seen[sig] <= keep:
+        ctx.violation(sig, what, replay_obj)
+    else:
+        ctx.stat('violations_not_written', sig)
+
+
 def run(ctx):
     ctx.build(FILES)
     rng = ctx.rng
+    seen = {}
     quick = ctx.tier == 'quick'
     n_lat, n_dbl, n_sky, n_hole = (420, 260, 60, 40) if quick else (5000, 3000, 500, 300)
     ctx.cov['rule'] = (
         'lattice cases (dyadic data/error/positions; center, subpixel 1..32, rectangle exact) through K + V; '
         'arbitrary-double cases (exact / any subpixels) through V with the rigorous bound; six pixel classes, '
         'scalar / 1-4 positions (inside, pixel centre/corner, straddling an edge or corner, box touching the frame, '
-        'far outside), 1-3 apertures, masks (none / random / all), NaN/inf pixels, bare array / NDData / Quantity; '
+        'far outside), 1-3 apertures, masks (none / random / all), NaN/inf pixels, bare array / NDData / Quantity, float64 / float32 / int16 / int32 / uint8 storage; '
         'sky apertures through a TAN WCS; hole images under exact elliptical annuli; '
         'non-trivial = at least one position whose pixel set is non-empty')
     ctx.assumptions += [
@@ -864,6 +890,7 @@ def run(ctx):
             viol, info = [('oracle:exception', f'{type(ex).__name__}: {str(ex)[:150]}', {})], {}
         ctx.stat('generator', 'lattice' if spec['lattice'] else 'doubles')
         ctx.stat('form', spec['form'])
+        ctx.stat('dtype', spec.get('dtype') or 'float64')
         ctx.stat('method', spec['method'] + (str(spec['subpixels']) if spec['method'] == 'subpixel' else ''))
         for a in spec['apers']:
             ctx.stat('class', a['cls'])
@@ -878,7 +905,7 @@ def run(ctx):
                  sum(1 for n_, m_ in zip(info.get('npix', []), info.get('meets', [])) if m_ and n_ == 0))
         ctx.count_case(spec, any(n_ > 0 for n_ in info.get('npix', [])))
         for sig, what, detail in viol:
-            ctx.violation(sig, what, {'spec': spec, 'where': detail, 'cmd': 'bin/check C02 --replay <this file>'})
+            report(ctx, seen, sig, what, {'spec': spec, 'where': detail, 'cmd': 'bin/check C02 --replay <this file>'})
         if spec['lattice'] and not viol:
             try:
                 term = to_coq_invalid(spec) if spec.get('invalid') else to_coq(spec, info)
@@ -908,7 +935,7 @@ def run(ctx):
             ctx.stat('sky_class', 'Sky' + a['cls'])
         ctx.count_case(spec, True)
         for sig, what, detail in viol:
-            ctx.violation(sig, what, {'spec': spec, 'sky': True, 'where': detail})
+            report(ctx, seen, sig, what, {'spec': spec, 'sky': True, 'where': detail})
     ctx.support('sky_eq_to_pixel(wcs)', n_sky)
 
 
